@@ -115,6 +115,19 @@ class MNF:
     def atom(self, t):
         return {(("A", t, False),): Fraction(1)}
 
+    def is_vector_nf(self, x):
+        """a single declared 1-D term (coefficient 1)"""
+        if len(x) != 1:
+            return False
+        (m, c), = x.items()
+        return c == 1 and len(m) == 1 and m[0][0] == "A" and m[0][1] in self.vectors
+
+    def is_matrix_nf(self, x):
+        """every monomial starts and ends with a factor known to be 2-D (inverse, identity, diagonal, undeclared atom)"""
+        def two_d(f):
+            return f[0] in ("inv", "I", "D") or (f[0] == "A" and f[1] not in self.vectors and f[1] not in self.scalars)
+        return bool(x) and all(m and two_d(m[0]) and two_d(m[-1]) for m in x)
+
     def opaque(self, t):
         """result of an operation the algebra does not interpret: an atom whose relation to others is unknown"""
         return {(("O", t),): Fraction(1)}
@@ -148,6 +161,12 @@ class MNF:
                 l, r = self.nf(t[2]), self.nf(t[3])
                 if set(l) <= {()} or set(r) <= {()}:
                     return mul(l, r)
+                # elementwise product of a matrix with a known 1-D vector broadcasts over columns:  M * v = v * M = M diag(v)
+                lv, rv = self.is_vector_nf(l), self.is_vector_nf(r)
+                if rv and not lv and self.is_matrix_nf(l):
+                    return mul(l, {(("D", key(r)),): Fraction(1)})
+                if lv and not rv and self.is_matrix_nf(r):
+                    return mul(r, {(("D", key(l)),): Fraction(1)})
                 return self.opaque(t)
             if op == "/":
                 r = self.nf(t[3])
